@@ -551,6 +551,11 @@ func (p c18) Run(c *core.Ctx, idx int) {
 					strat = dp.Upsert
 				}
 			}
+			if viaXML {
+				// a list without entries has no element in an XML document: it cannot arrive that way
+				entry = entry.Clone()
+				dp.DropEmptyLists(entry)
+			}
 			desc = fmt.Sprintf("%sFrom entry %q into list %q (xml=%v)", strat, entry.Key(), lpath.String(), viaXML)
 			holder := dp.NewDNode(lst.S.DataParent())
 			holder.Lists[lst.S.Name] = &dp.DList{S: lst.S, Entries: []*dp.DNode{entry}}
